@@ -45,6 +45,7 @@ from ..ast.fpyast import (
     AnyOf,
     Assign,
     BoolVal,
+    Compare,
     Expr,
     ForStmt,
     FuncDef,
@@ -155,6 +156,15 @@ class _ReduceFusionInstance(DefaultTransformVisitor):
         cond = self._visit_expr(stmt.cond, None)
         body, _ = self._visit_block(stmt.body, ctx)
         return WhileStmt(cond, body, stmt.loc), ctx
+
+    def _visit_compare(self, e: Compare, ctx: Any) -> Compare:
+        # A chain `a < b < c` stops at the first link that fails: only its
+        # first two operands are evaluated unconditionally.
+        args = [
+            self._visit_expr(arg, ctx if i < 2 else None)
+            for i, arg in enumerate(e.args)
+        ]
+        return Compare(e.ops, args, e.loc)
 
     def _visit_if_expr(self, e: IfExpr, ctx: Any) -> IfExpr:
         # The branches are conditional; hoisting a loop out of one would run
